@@ -40,6 +40,8 @@ pub struct Spec {
     /// if non-zero: .dynstr and .text live in a second PT_LOAD whose vaddr = file offset + delta
     /// (what patchelf produces); DT_STRTAB then differs from the file offset
     pub split_load_delta: u64,
+    /// an allocated, non-executable PROGBITS section (.rodata) placed before .text
+    pub rodata_first: bool,
 }
 
 impl Default for Spec {
@@ -57,6 +59,7 @@ impl Default for Spec {
             note_align: 4,
             abi_note_first: false,
             split_load_delta: 0,
+            rodata_first: false,
         }
     }
 }
@@ -114,7 +117,11 @@ pub fn build(spec: &Spec) -> Built {
     let shentsize = if is64 { 64 } else { 40 };
     let nph = 1 + spec.pt_note as usize + 1 + (spec.split_load_delta != 0) as usize; // LOAD, [LOAD2], [NOTE], DYNAMIC
     let shnames: Vec<&str> = if spec.sections {
-        let mut v = vec!["", ".text"];
+        let mut v = vec![""];
+        if spec.rodata_first {
+            v.push(".rodata");
+        }
+        v.push(".text");
         if spec.section_note {
             v.push(".note.gnu.build-id");
         }
@@ -161,6 +168,10 @@ pub fn build(spec: &Spec) -> Built {
         dynstr.push(0);
     }
     cur += dynstr.len();
+    // rodata
+    let rodata_off = cur;
+    let rodata: Vec<u8> = if spec.rodata_first { (0..48).map(|i| 0xC0u8.wrapping_add(i * 5)).collect() } else { vec![] };
+    cur += rodata.len();
     // text
     let text_off = cur;
     let text: Vec<u8> = (0..spec.text_len).map(|i| (0x6a + i * 29) as u8).collect();
@@ -270,6 +281,7 @@ pub fn build(spec: &Spec) -> Built {
         for (i, n) in shnames.iter().enumerate() {
             match *n {
                 "" => sh(&mut w, "sh_null", 0, 0, 0, 0, 0, 0, 0),
+                ".rodata" => sh(&mut w, "sh_rodata", name_offs[i], 1, 2, rodata_off, rodata.len(), 0, 8),
                 ".text" => sh(&mut w, "sh_text", name_offs[i], 1, 6, text_off, text.len(), 0, 16),
                 ".note.gnu.build-id" => sh(&mut w, "sh_note", name_offs[i], 7, 2, note_off, note_len, 0, spec.note_align),
                 ".shstrtab" => sh(&mut w, "sh_shstrtab", name_offs[i], 3, 0, shstr_off, shstr.len(), 0, 1),
@@ -315,6 +327,7 @@ pub fn build(spec: &Spec) -> Built {
     w.put("dyn_null.d_val", ws, 0);
     assert_eq!(w.b.len(), dynstr_off);
     w.raw(&dynstr);
+    w.raw(&rodata);
     assert_eq!(w.b.len(), text_off);
     w.raw(&text);
     assert_eq!(w.b.len(), total);
